@@ -63,6 +63,21 @@ REGISTRY["C01"] = dict(
     ),
     assumptions=TRUSTED + ["evaluation errors are never swallowed (checked: only Environment::{get_mixin,get_var} match on Err)"],
 )
+REGISTRY["C19"] = dict(
+    module="c19",
+    level="other",
+    technique="static analysis: error-kind typestate at the API boundary; who-may-call and guard rules for the Logger and std streams; must-depend flow for the @warn de-duplication key; format-template extraction",
+    claim=(
+        "Structural clauses: (a) the public entry points can only return ParseError/IoError/FromUtf8Error (never Raw), SassError kinds are built only by the From impls; "
+        "(b) Logger::{warn,debug} are called only from emit_warning/visit_debug_rule, on options.logger, under options.quiet == false on every path, and no library code writes to stdout/stderr except StdLogger (stderr); "
+        "(c) the @warn suppression key includes the evaluated message; (d) every renderable kind prints `Error: ` first and the caret width is max-min; (e) Logger locations derive from the directive's span. "
+        "NOT decided: that spans lie inside the named file for re-lexed interpolated text; delivery counts."
+    ),
+    explanation=(
+        "Clauses C19-a..e of DESIGN.md §3 on MIR facts of the current tree. NOT decided: span validity for re-lexed text, `exactly once` as a count, @error inspect semantics."
+    ),
+    assumptions=TRUSTED,
+)
 
 UNBUILT = "check not built yet in this session (design in DESIGN.md §3); not claimed until its rules run clean on the pinned tree"
 NOT_APPLICABLE = {
